@@ -284,6 +284,26 @@ def check_stdin(run, case):
                     os.remove(os.path.join(repo.scratch(), sn + mode + ext))
                 except FileNotFoundError:
                     pass
+        # a user on a real terminal who only asks for status / help: nothing may change
+        out, err, rc, to = cli.run_cli('pcfg_guesser.py', ['-r', name, '-s', sn + 'tty'], stdin_mode='pty_timed', data=[(0.02, b'\n'), (0.03, b'h\n'), (0.05, b'\n')])
+        run.ev('cli_runs'); run.add_to_set('stdin_conditions', 'pty typed ENTER/h')
+        if not to:
+            if out != ref:
+                run.violation(f'status requests typed on a terminal changed stdout ({out.count(10)} lines of {len(U.guesses)})', case,
+                              observed={'head': out[:80].decode('utf-8', 'replace'), 'stderr_tail': err[-200:].decode('utf-8', 'replace')}); return
+            run.case(h(['stdin', case['spec']['base'], 'pty typed']))
+        # q typed on a real terminal: line-aligned prefix, and --load supplies the rest
+        out, err, rc, to = cli.run_cli('pcfg_guesser.py', ['-r', name, '-s', sn + 'ttyq'], stdin_mode='pty_timed', data=[(0.03, b'q\n')])
+        run.ev('cli_runs'); run.add_to_set('stdin_conditions', 'pty typed q')
+        if not to:
+            if not ref.startswith(out) or (out and not out.endswith(b'\n')):
+                run.violation('q typed on a terminal: stdout is not a line-aligned prefix of the uninterrupted stream', case, observed=out[-120:].decode('utf-8', 'replace')); return
+            if out != ref:
+                out2, err2, rc2, to2 = cli.run_cli('pcfg_guesser.py', ['-r', name, '-s', sn + 'ttyq', '--load'], stdin_mode='pty')
+                run.ev('cli_runs'); run.ev('cli_resumes')
+                lost = Counter(ref.split(b'\n')) - (Counter(out.split(b'\n')) + Counter(out2.split(b'\n')))
+                if lost:
+                    run.violation(f'q typed on a terminal + --load lost {sum(lost.values())} guesses', case, observed=[x.decode('utf-8', 'replace') for x in list(lost)[:5]]); return
         # an explicit q on a pipe: prefix + resume = everything
         out, err, rc, to = cli.run_cli('pcfg_guesser.py', ['-r', name, '-s', sn + 'q'], stdin_mode='lines_open', data=b'q\n')
         run.ev('cli_runs')
